@@ -129,7 +129,7 @@ func worker_2E4(jobs <-chan string, out chan<- *R) {
 		PArr = append(PArr, p)
 		QArr = append(QArr, q)
 		log.Printf("[%s] 二元推导检测 m=3 P: %.5f Q: %.5f", filename, p, q)
-		p, _ = randomness.BinaryDerivativeProto(bits, 7)
+		p, q = randomness.BinaryDerivativeProto(bits, 7)
 		PArr = append(PArr, p)
 		QArr = append(QArr, q)
 		log.Printf("[%s] 二元推导检测 m=7 P: %.5f Q: %.5f", filename, p, q)
